@@ -1,4 +1,5 @@
 import Mimic.Wire
+import Mimic.Py
 /-!
 L2 — client packet parsers of `packets.py` that are not covered by `Mimic.Params`: `parse_handshake_response`,
 `_read_connect_attrs`, `parse_com_change_user`, `parse_com_field_list` and the fixed-layout statement commands.
@@ -39,10 +40,12 @@ def readConnectAttrs (dec : Bytes → Option Bytes) : Nat → Int → Bytes → 
           | _, _ => none
     else some ([], b)
 
+/-- `_read_connect_attrs`: the pairs go into a Python `dict` (a repeated key keeps its first position and takes the last
+    value) -/
 def connectAttrs (dec : Bytes → Option Bytes) (b : Bytes) : Option (List (Bytes × Bytes) × Bytes) :=
   match decLen b with
   | none => none
-  | some (total, rest) => readConnectAttrs dec (rest.length + 1) total rest
+  | some (total, rest) => (readConnectAttrs dec (rest.length + 1) total rest).map (fun x => (Mimic.Py.dictOf x.1, x.2))
 
 structure HsResp where
   caps : Nat
@@ -57,7 +60,7 @@ structure HsResp where
 deriving Repr, DecidableEq
 
 inductive HsParse
-  | ssl (caps maxPacket collation : Nat)
+  | ssl (caps maxPacket charset : Nat)
   | resp (r : HsResp)
   | error
 deriving Repr, DecidableEq
@@ -66,9 +69,9 @@ deriving Repr, DecidableEq
 def optNul (dec : Bytes → Option Bytes) (present : Bool) (b : Bytes) : Option (Option Bytes × Bytes) :=
   if present then (dec (readNul b).1).map (fun s => (some s, (readNul b).2)) else some (none, b)
 
-/-- `parse_handshake_response(capabilities = server caps, data)`. `validCollation c` = `Collation(c)` exists;
-    `dec c` = decoder of the character set of collation `c` -/
-def parseHandshakeResponse (serverCaps : Nat) (validCollation : Nat → Bool) (dec : Nat → Bytes → Option Bytes)
+/-- `parse_handshake_response(capabilities = server caps, data)`. `collation c` = the character set id of
+    `Collation(c).charset` (`none`: no such collation); `dec cs` = decoder of character set `cs` -/
+def parseHandshakeResponse (serverCaps : Nat) (collation : Nat → Option Nat) (dec : Nat → Bytes → Option Bytes)
     (data : Bytes) : HsParse :=
   match readUInt 4 data with
   | none => .error
@@ -79,10 +82,12 @@ def parseHandshakeResponse (serverCaps : Nat) (validCollation : Nat → Bool) (d
       match b2 with
       | [] => .error
       | coll :: b3 =>
-        if !validCollation coll.toNat then .error else
+        match collation coll.toNat with
+        | none => .error
+        | some cs =>
         -- `read_str_fixed(r, 23)` is lenient; `peek` = is there anything left
-        if (b3.drop 23).isEmpty then .ssl (Nat.land serverCaps ccaps) maxp coll.toNat else
-        match dec coll.toNat (readNul (b3.drop 23)).1 with
+        if (b3.drop 23).isEmpty then .ssl (Nat.land serverCaps ccaps) maxp cs else
+        match dec cs (readNul (b3.drop 23)).1 with
         | none => .error
         | some user =>
           match (if has (Nat.land serverCaps ccaps) LENENC_CLIENT_DATA then decStr (readNul (b3.drop 23)).2
@@ -91,19 +96,19 @@ def parseHandshakeResponse (serverCaps : Nat) (validCollation : Nat → Bool) (d
                    | l :: r => some (r.take l.toNat, r.drop l.toNat)) with
           | none => .error
           | some (auth, b5) =>
-            match optNul (dec coll.toNat) (has (Nat.land serverCaps ccaps) CONNECT_WITH_DB) b5 with
+            match optNul (dec cs) (has (Nat.land serverCaps ccaps) CONNECT_WITH_DB) b5 with
             | none => .error
             | some (db, b6) =>
-              match optNul (dec coll.toNat) (has (Nat.land serverCaps ccaps) PLUGIN_AUTH) b6 with
+              match optNul (dec cs) (has (Nat.land serverCaps ccaps) PLUGIN_AUTH) b6 with
               | none => .error
               | some (plugin, b7) =>
-                match (if has (Nat.land serverCaps ccaps) CONNECT_ATTRS then connectAttrs (dec coll.toNat) b7 else some ([], b7)) with
+                match (if has (Nat.land serverCaps ccaps) CONNECT_ATTRS then connectAttrs (dec cs) b7 else some ([], b7)) with
                 | none => .error
                 | some (attrs, b8) =>
                   match (if has (Nat.land serverCaps ccaps) ZSTD then
                            (match b8 with | [] => none | z :: _ => some z.toNat) else some 0) with
                   | none => .error
-                  | some z => .resp { caps := Nat.land serverCaps ccaps, maxPacket := maxp, charset := coll.toNat,
+                  | some z => .resp { caps := Nat.land serverCaps ccaps, maxPacket := maxp, charset := cs,
                                       username := user, auth := auth, db := db, plugin := plugin, attrs := attrs, zstd := z }
 
 /-- fixed-layout statement commands: `(stmt_id [, second field])` -/
